@@ -14,7 +14,7 @@ from ..engines.units import UnitAnalysis, show, TICK, FTICK, QUARTER, inv
 FN = "MidiFile.convert"
 
 
-def check(ctx: Ctx) -> None:
+def _main_check(ctx: Ctx) -> None:
     p = ctx.p
     fi = p.func(FN)
     ctx.analysed(fi)
@@ -274,3 +274,9 @@ def check(ctx: Ctx) -> None:
         ok = isinstance(t_, ast.BoolOp) and isinstance(t_.op, ast.Or) and "len(" in src(t_) and ">=" in src(t_) and ("0 >" in src(t_) or "< 0" in src(t_))
         ctx.check(ok, "MERGE", f"{FN}: target index must satisfy 0 <= index < number of groups", function=FN,
                   construct="meta target range check is not `index < 0 or index >= len`", message=short(t_), file=fi.file, node=rc)
+
+
+def check(ctx: Ctx) -> None:
+    _main_check(ctx)
+    from .common import view_deps
+    view_deps(ctx)
